@@ -14,6 +14,8 @@ import (
 	"go.dedis.ch/kyber/v4/proof"
 	"go.dedis.ch/kyber/v4/shuffle"
 	"verif/harness/alpha"
+	"verif/harness/checks/c14"
+	"verif/harness/groups"
 	"verif/harness/vf"
 )
 
@@ -35,6 +37,53 @@ func runBiffleForge(c *vf.Check, gn string) {
 	in := w.input(2, 0)
 	X := [2]kyber.Point{w.pt(in.a[0]), w.pt(in.a[1])}
 	Y := [2]kyber.Point{w.pt(in.b[0]), w.pt(in.b[1])}
+	// simulator-style forgery: both branches simulated with their own sub-challenges, for outputs that have nothing
+	// to do with the input (and, as a control of the same shape, for an honest output)
+	for variant := 0; variant < 3; variant++ {
+		variant := variant
+		id := fmt.Sprintf("biffle %s simulated transcript, output variant %d", gn, variant)
+		c.Case(id, pk, func(x *vf.Ctx) {
+			var Xb, Yb [2]kyber.Point
+			for i := 0; i < 2; i++ {
+				switch variant {
+				case 0: // unrelated points
+					Xb[i] = s.Point().Pick(alpha.Stream(fmt.Sprintf("c15-sim-x%d", i)))
+					Yb[i] = s.Point().Pick(alpha.Stream(fmt.Sprintf("c15-sim-y%d", i)))
+				case 1: // both outputs are re-encryptions of input 0
+					b := alpha.ToScalar(s.Scalar(), alpha.Rand(fmt.Sprintf("c15-sim-b%d", i), w.q), w.q)
+					Xb[i] = s.Point().Add(s.Point().Mul(b, w.G), X[0])
+					Yb[i] = s.Point().Add(s.Point().Mul(b, w.H), Y[0])
+				default: // an honest re-encryption in the identity order
+					b := alpha.ToScalar(s.Scalar(), alpha.Rand(fmt.Sprintf("c15-sim-h%d", i), w.q), w.q)
+					Xb[i] = s.Point().Add(s.Point().Mul(b, w.G), X[i])
+					Yb[i] = s.Point().Add(s.Point().Mul(b, w.H), Y[i])
+				}
+			}
+			pts := map[string]kyber.Point{"G": w.G, "H": w.H,
+				"Xbar0-X0": s.Point().Sub(Xb[0], X[0]), "Ybar0-Y0": s.Point().Sub(Yb[0], Y[0]),
+				"Xbar1-X1": s.Point().Sub(Xb[1], X[1]), "Ybar1-Y1": s.Point().Sub(Yb[1], Y[1]),
+				"Xbar0-X1": s.Point().Sub(Xb[0], X[1]), "Ybar0-Y1": s.Point().Sub(Yb[0], Y[1]),
+				"Xbar1-X0": s.Point().Sub(Xb[1], X[0]), "Ybar1-Y0": s.Point().Sub(Yb[1], Y[0])}
+			var brs [][]c14.SimRep
+			for b := 0; b < 2; b++ {
+				var br []c14.SimRep
+				for _, r := range biffleRels[b] {
+					br = append(br, c14.SimRep{P: r.pt, Terms: [][2]string{{r.sec, r.base}}})
+				}
+				brs = append(brs, br)
+			}
+			prf, err := c14.SimulateOr(s, groups.ByName(gn), "c15b", brs, pts, id)
+			c.Eval(1)
+			if err != nil {
+				return
+			}
+			if proof.HashVerify(s, "c15b", shuffle.BiffleVerifier(s, w.G, w.H, X, Y, Xb, Yb), prf) == nil {
+				x.Failf(pk+"/forged-proof-accepted", "%s: a transcript in which both Or-branches are simulated with freely chosen sub-challenges is accepted", id)
+			}
+		})
+		c.Count("transitions", 1)
+		c.Nontrivial(id)
+	}
 	D := s.Point().Mul(alpha.ToScalar(s.Scalar(), alpha.Rand("c15-biffle-forge-d", w.q), w.q), nil)
 	for bit := 0; bit < 2; bit++ {
 		for k := 0; k < 4; k++ {
